@@ -20,7 +20,7 @@ PID = 'C19'
 LEVEL = 'other'
 TARGETS = ['valjean.cosette.run:run', 'valjean.cosette.run:make_cap_paths', 'valjean.cosette.run:RunTask.run_task',
            'valjean.cosette.run:RunTask.from_clis', 'valjean.path:sanitize_filename', 'valjean.path:ensure',
-           'valjean.cosette.pythontask:PythonTask.do', 'valjean.cosette.code:CheckoutTask.__init__']
+           'valjean.cosette.pythontask:PythonTask.do', 'valjean.cosette.code:CheckoutTask.__init__', 'valjean.cosette.code:BuildTask.__init__', 'valjean.cosette.code:BuildTask.cmake_build_sys']
 BOUNDS = {'quick': {'commands': '<= 3 per task', 'executions': 'each task twice under the same output root', 'exit statuses': 'arbitrary integers (symbolic)', 'start-up failure': 'OSError at any position',
                     'task names': 'arbitrary strings of any length (z3 string theory)'},
           'thorough': {'commands': '<= 4 per task', 'exit statuses': 'arbitrary integers (symbolic)',
@@ -29,7 +29,7 @@ ASSUMPTIONS = ['subprocess.call is a stub: returns a symbolic integer status, or
                'per stream; the real files are created in a temporary directory',
                'the conversion of an exception in do() into FAILED by the worker is decided in C02',
                'output directory = lexical join of output root and sanitized name (posixpath semantics); z3 sequence theory for the name']
-OUTSIDE = ['real child processes, shells, signals', 'BuildTask (code.py): same runner, not driven separately']
+OUTSIDE = ['real child processes, shells, signals']
 EXPLANATION = ('bounded symbolic execution (symrun + z3 LIA) of the real command runner with symbolic exit statuses, plus CrossHair on the '
                'output-directory computation with a symbolic task name')
 CH_FILE = os.path.join(os.path.dirname(os.path.abspath(__file__)), 'ch', 'ch_C19.py')
@@ -169,6 +169,50 @@ def checkout_harness(ex):
         shutil.rmtree(tmp, ignore_errors=True)
 
 
+def build_harness(ex):
+    """BuildTask (code.py): cmake configure, then cmake --build, through the same runner; symbolic exit statuses"""
+    import valjean.cosette.run as runmod
+    from valjean.cosette.code import BuildTask
+    from valjean.cosette.task import TaskStatus
+    from valjean.cosette.env import Env
+    codes = [ex.int('configure-status'), ex.int('build-status')]
+    calls = []
+
+    def call_stub(cli, **kw):
+        calls.append(list(cli))
+        kw['stdout'].write(f'OUT{len(calls)}\n')
+        return codes[len(calls) - 1]
+    saved = runmod.call
+    runmod.call = call_stub
+    tmp = tempfile.mkdtemp(prefix='verif_c19_')
+    try:
+        class _C:
+            def query(self, sec, key):
+                return tmp
+        targets = ['install'] if ex.flag('with-a-target') else None
+        task = BuildTask('bld', source=tmp, build_root=tmp, log_root=tmp, targets=targets)
+        upd, status = task.do(Env(), _C())
+        conf_ok = not bool(codes[0] != 0)
+        if not conf_ok:
+            ex.check(len(calls) == 1, 'build:no-command-after-the-failed-configure-step')
+            ex.check(status == TaskStatus.FAILED, 'build:failed-configure-makes-the-task-FAILED')
+        else:
+            ex.check(len(calls) == 2 and calls[1][1] == '--build' and (targets is None or calls[1][-2:] == ['--target', 'install']),
+                     'build:both-commands-run-in-order')
+            ex.check((status == TaskStatus.DONE) == (not bool(codes[1] != 0)), 'build:DONE-iff-both-commands-exited-with-zero')
+        log = open(upd['bld']['build_log']).read()
+        ex.check([ln for ln in log.splitlines() if ln.startswith('OUT')] == [f'OUT{k + 1}' for k in range(len(calls))],
+                 'build:log-holds-the-output-of-the-commands-run')
+    finally:
+        runmod.call = saved
+        shutil.rmtree(tmp, ignore_errors=True)
+
+
+def _job_build(timeout_ms, seed=0):
+    return run_sym('x', build_harness, timeout_ms=timeout_ms, seed=seed,
+                   require_checks=['build:failed-configure-makes-the-task-FAILED'])
+
+
 def _job_checkout(timeout_ms, seed=0):
     return run_sym('x', checkout_harness, timeout_ms=timeout_ms, seed=seed,
                    require_checks=['checkout:failed-clone-makes-the-task-FAILED'])
@@ -233,6 +277,7 @@ def jobs(tier):
             out.append((f'run-n{n}-task{int(via)}', _job, dict(n=n, via_task=via, timeout_ms=20000)))
     out.append(('task-name', _job_name, dict(timeout_ms=30000)))
     out.append(('checkout-task', _job_checkout, dict(timeout_ms=20000)))
+    out.append(('build-task', _job_build, dict(timeout_ms=20000)))
     return out
 
 
@@ -241,5 +286,7 @@ def replay(rp):
         return replay_sym(name_harness, rp['inputs'])
     if rp['job'] == 'checkout-task':
         return replay_sym(checkout_harness, rp['inputs'])
+    if rp['job'] == 'build-task':
+        return replay_sym(build_harness, rp['inputs'])
     n = int(rp['job'].split('-')[1][1:])
     return replay_sym(make_harness(n, rp['job'].endswith('task1')), rp['inputs'])
